@@ -82,6 +82,14 @@ CHECKS["C09"] = dict(
     design_ref="DESIGN.md section 5, C09",
 )
 
+CHECKS["C08"] = dict(
+    engine=E1,
+    technique="explicit-state BFS over all request histories from two peers with equal CP SEIDs and sequence numbers plus an unassociated peer (Heartbeat, Association with/without Node ID, six Establishment variants, Modification/Deletion of live, released and never-issued SEIDs), correlation oracle on every transition",
+    text="Model checking of the implementation: every datagram of a step must go to the request's source with its sequence number and the right type; session responses carry the peer's SEID or 0 with cause 65; an accepted Establishment returns node id and a UP F-SEID that a follow-up Modification reaches; Created PDR exactly for PDRs with UE IPv4; an unsuccessful or unanswered request leaves session and data-plane state bit-identical; all recovery time stamps of a history are equal.",
+    note=E1_NOTE,
+    design_ref="DESIGN.md section 5, C08",
+)
+
 NOT_YET = "check not built yet (work in progress in this round; design in DESIGN.md section 5)"
 
 def main():
